@@ -121,7 +121,7 @@ func (p *printer) commentsHaveNewline(list []*ast.Comment) bool {
 			// not all comments on the same line
 			return true
 		}
-		if t := c.Text; len(t) >= 2 && (t[1] == '/' || strings.Contains(t, "\n")) {
+		if t := c.Text; isLineComment(t) || strings.Contains(t, "\n") {
 			return true
 		}
 	}
@@ -357,7 +357,7 @@ func (p *printer) writeCommentPrefix(pos, next token.Position, prev *ast.Comment
 		return
 	}
 
-	if pos.Line == p.last.Line && (prev == nil || prev.Text[1] != '/') {
+	if pos.Line == p.last.Line && (prev == nil || !isLineComment(prev.Text)) {
 		// comment on the same line as last item:
 		// separate with at least one separator
 		hasSep := false
@@ -455,7 +455,7 @@ func (p *printer) writeCommentPrefix(pos, next token.Position, prev *ast.Comment
 
 		// make sure there is at least one line break
 		// if the previous comment was a line comment
-		if n == 0 && prev != nil && prev.Text[1] == '/' {
+		if n == 0 && prev != nil && isLineComment(prev.Text) {
 			n = 1
 		}
 
@@ -486,6 +486,18 @@ func commonPrefix(a, b string) string {
 		i++
 	}
 	return a[0:i]
+}
+
+// isLineComment reports whether text is a #-style or //-style comment:
+// it extends to the end of its line, so a line break must follow it.
+// A #-style comment may consist of the '#' alone.
+func isLineComment(text string) bool {
+	return text[0] == '#' || len(text) > 1 && text[1] == '/'
+}
+
+// isBlockComment reports whether text is a /*-style comment.
+func isBlockComment(text string) bool {
+	return len(text) > 1 && text[0] == '/' && text[1] == '*'
 }
 
 // trimRight returns s with trailing whitespace removed.
@@ -760,7 +772,7 @@ func (p *printer) intersperseComments(next token.Position, tok token.Token) (wro
 		// use that information to decide more directly.
 		needsLinebreak := false
 		if p.mode&noExtraBlank == 0 &&
-			last.Text[1] == '*' && p.lineFor(last.Pos()) == next.Line &&
+			isBlockComment(last.Text) && p.lineFor(last.Pos()) == next.Line &&
 			tok != token.COMMA &&
 			(tok != token.RPAREN || p.prevOpen == token.LPAREN) &&
 			(tok != token.RBRACK || p.prevOpen == token.LBRACK) {
@@ -772,7 +784,7 @@ func (p *printer) intersperseComments(next token.Position, tok token.Token) (wro
 		}
 		// Ensure that there is a line break after a //-style comment,
 		// before EOF, and before a closing '}' unless explicitly disabled.
-		if last.Text[1] == '/' ||
+		if isLineComment(last.Text) ||
 			tok == token.EOF ||
 			tok == token.RBRACE && p.mode&noExtraLinebreak == 0 {
 			needsLinebreak = true
